@@ -43,6 +43,9 @@ def _parse_model(text):
     return model
 
 
+Z3_MEM_MB = int(os.environ.get('VERIF_Z3_MEM_MB', '3500'))
+
+
 def _solve(args):
     """one query in a separate z3 process (hard wall-clock cap; the in-process timeout of the API does not cover
     preprocessing of large non-linear terms)"""
@@ -50,7 +53,9 @@ def _solve(args):
     t0 = time.time()
     text = smt2 + '\n(check-sat)\n' + ('(get-model)\n' if want_model else '')
     try:
-        p = subprocess.run(['z3-new', '-in', '-T:%d' % int(timeout_s)], input=text, stdout=subprocess.PIPE,
+        # hard memory cap per solver process (16 run in parallel on a 62 GB machine without swap; some Pippenger steps of the thorough
+        # tier grew to 9 GB each and brought the global OOM killer in): running out of memory is "unknown", never a verdict
+        p = subprocess.run(['z3-new', '-in', '-T:%d' % int(timeout_s), '-memory:%d' % Z3_MEM_MB], input=text, stdout=subprocess.PIPE,
                            stderr=subprocess.PIPE, text=True, timeout=timeout_s + 15)
     except subprocess.TimeoutExpired:
         return 'timeout', round(time.time() - t0, 3), None
@@ -65,6 +70,8 @@ def _solve(args):
         return 'sat', secs, _parse_model(out[out.index('sat') + 3:]) if want_model else None
     if first in ('unknown', 'timeout'):
         return first, secs, None
+    if 'out of memory' in (out + p.stderr).lower() or 'memory' in first.lower():
+        return 'unknown', secs, None
     return 'error: ' + (out + p.stderr)[:300], secs, None
 
 
